@@ -1,4 +1,5 @@
 """C13 -- package visibility follows mask, keyword and license configuration (DESIGN.md section 4, C13)."""
+import functools
 import itertools
 import os
 import random
@@ -322,6 +323,36 @@ def t_masks(ex):
     ex.oblige(f"{P}.ensures.unmasks_are_profile_layers_then_user[{nu} layers]", SBool((tu.t if tu is not None else E) == u))
     ex.oblige(f"{P}.ensures.keyword_and_license_filters_are_passed_on", got.get("extra") == ("KEYWORDS-FILTER", "LICENSE-FILTER"))
     ex.oblige(f"{P}.ensures.repo_is_wrapped_with_the_filters", out.value == ("filtered.tree", repo, "FILTERS", True))
+
+
+def t_profile_layers(ex):
+    """ProfileStack._incremental_masks / _incremental_unmasks -- where filter_repo's profile layers come from: the (negations, additions)
+    pairs of the stack's nodes in stack order.  Whatever nodes are left out, applying the returned layers in order to any set of masks must
+    give what applying every node's pair in stack order gives (a node that only negates is a layer like any other).  Bounded in the number
+    of nodes, unbounded in the sets."""
+    from pkgcore.ebuild.profiles import ProfileStack
+    meth, attr = (("_incremental_masks", "masks"), ("_incremental_unmasks", "unmasks"))[ex.choose(2)]
+    n = ex.choose(4)
+    P = f"C13.ProfileStack.{meth}[{n} nodes]"
+    AT = KRef("maskatom")
+    S = lambda nm: MutSet(KSet(AT).fresh(nm), frozen=True)
+    pairs = [(S(f"neg{i}"), S(f"pos{i}")) for i in range(n)]
+    nodes = [types.SimpleNamespace(**{attr: pr}) for pr in pairs]
+    me = SObj(ProfileStack, {"stack": tuple(nodes)})
+    it = Interp(ex, label=P)
+    out = call(it, it.target("src/pkgcore/ebuild/profiles.py", f"ProfileStack.{meth}"), me)
+    ex.oblige(f"{P}.raises.nothing", not out.raised, kind="exceptional-postcondition")
+    if out.raised:
+        return
+    got = out.value
+    shape = isinstance(got, (tuple, list)) and all(isinstance(g, tuple) and len(g) == 2 and all(isinstance(x, MutSet) for x in g) for g in got)
+    ex.oblige(f"{P}.ensures.a_sequence_of_negations_additions_pairs", shape)
+    if not shape:
+        return
+    ex.cover("returns layers")
+    start = KSet(AT).fresh("masks_so_far").t
+    fold = lambda layers: functools.reduce(lambda m, pr: z3.SetUnion(z3.SetDifference(m, pr[0].val.t), pr[1].val.t), layers, start)
+    ex.oblige(f"{P}.ensures.applying_the_layers_equals_applying_every_nodes_pair_in_stack_order", SBool(fold(got) == fold(pairs)))
 
 
 def t_generate(ex):
@@ -674,6 +705,8 @@ def tasks():
         Task("C13.config_files", None, [(FILE, "_read_config_file")], enumerate=enum_config_files),
         Task("C13.config_entries", None, [(FILE, "domain.pkg_licenses"), (FILE, "domain.pkg_accept_keywords"), ("src/pkgcore/ebuild/profiles.py", "ProfileNode._package_keywords_splitter")], enumerate=enum_config_entries),
         Task("C13.masks", None, [(FILE, "make_mask_filter"), (FILE, "apply_mask_filter"), (FILE, "generate_filter")], enumerate=enum_masks),
+        Task("C13.profile_layers", t_profile_layers, [("src/pkgcore/ebuild/profiles.py", "ProfileStack._incremental_masks"), ("src/pkgcore/ebuild/profiles.py", "ProfileStack._incremental_unmasks")],
+             bounded={"profile nodes": 3, "note": "sets unbounded"}),
         Task("C13.filter_repo", t_masks, [(FILE, "domain.filter_repo")], bounded={"profile mask layers": 2, "profile unmask layers": 2, "note": "sets unbounded"}),
     ]
 
